@@ -22,8 +22,9 @@ RULE = ('hypothesis draws form in {decorator, context manager, generator/corouti
         'HTTPResponse<-HTTPError and a subclass of each; strict/immediate/serializable/optimistic) x 1..retry+1 attempt '
         'scripts of steps set/del/flush/commit/rollback/raise X/doomed duplicate insert/yield(with caught classes, '
         'GeneratorExit and BaseException included, after which the body goes on)/'
-        'nested session (decorator or context manager with own options, depth <= 3, optionally catching the inner '
-        'exception) x for generators a consumer script of next/send/throw X/close/abandon (drop the last reference). '
+        'nested session (decorator or context manager with own options -- including the refused ones: ddl=True, '
+        'serializable=True under a non-serializable outermost session --, depth <= 3, optionally catching the inner '
+        'exception, TransactionError included) x for generators a consumer script of next/send/throw X/close/abandon (drop the last reference). '
         'One case = one such script run on a fresh SQLite file, followed by one more db_session that is empty or '
         'writes 1-2 rows and must make durable exactly its own writes. Non-trivial = at '
         'some commit-or-rollback decision (normal end, exception leaving the outermost body, suspension) uncommitted '
@@ -44,8 +45,9 @@ CLASS_FLOORS = {'form:decorator': 0.15, 'form:context': 0.10, 'form:generator': 
                 'allowed_through_superclass:callable': 0.001, 'retried_through_superclass:list': 0.001,
                 'raise:after_write': 0.05, 'raise:after_flush': 0.02, 'raise:after_commit': 0.01,
                 'raise:before_write': 0.03, 'predicate_error:decisive': 0.002,
-                'generator_exit_caught_by_body:decisive': 0.004, 'consumer:close': 0.01, 'consumer:abandon': 0.005,
-                'following_session_writes': 0.2}
+                'generator_exit_caught_by_body:decisive': 0.003, 'consumer:close': 0.01, 'consumer:abandon': 0.005,
+                'following_session_writes': 0.2, 'nested_session_refused': 0.02,
+                'nested_refusal_caught_by_body:decisive': 0.003}
 
 BUDGET = {   # examples per shard: (quick, thorough)
     'decorator': (280, 1000),
@@ -88,14 +90,18 @@ def _strategies():
         else:
             retry = st.sampled_from([0] * 24 + [1])
         serializable = st.sampled_from([False] * 24 + [True]) if form == 'generator' else flag
-        return st.fixed_dictionaries({'retry': retry, 'allowed': allowed_spec, 'retry_exc': excspec, 'strict': flag,
-                                      'immediate': flag, 'serializable': serializable,
-                                      'optimistic': st.sampled_from([True, True, False])})
+        fields = {'retry': retry, 'allowed': allowed_spec, 'retry_exc': excspec, 'strict': flag,
+                  'immediate': flag, 'serializable': serializable, 'optimistic': st.sampled_from([True, True, False])}
+        if inner:
+            # nested sessions may ask for what Pony refuses inside an ordinary session (R13): ddl=True, and (context
+            # manager form) serializable=True under a non-serializable outermost session
+            fields['ddl'] = st.sampled_from([False] * 7 + [True])
+        return st.fixed_dictionaries(fields)
 
     opts_st = dict(((form, inner), make_opts(form, inner))
                    for form in ('decorator', 'context', 'generator') for inner in (False, True))
 
-    catch_biased = st.lists(st.sampled_from(['A', 'A', 'B', 'C', 'D', 'E']), max_size=2, unique=True)
+    catch_biased = st.lists(st.sampled_from(['A', 'A', 'B', 'C', 'D', 'E', 'TE', 'TE', 'TE']), max_size=2, unique=True)
     # around a yield the body may also intercept GeneratorExit / everything (R11)
     catch_yield = st.lists(st.sampled_from(['A', 'A', 'B', 'D', 'E', 'GeneratorExit', 'GeneratorExit', 'GeneratorExit',
                                             'BaseException', 'BaseException']), max_size=2, unique=True)
@@ -290,10 +296,8 @@ def normalize(case):
                 spec = {'form': step[1]['form'], 'opts': dict(step[1]['opts'])}
                 if _lists_overlap(spec['opts']):
                     spec['opts']['allowed'] = None        # would be refused with TypeError (R8)
-                if spec['form'] == 'context':
-                    spec['opts']['retry'] = 0
-                    if not outer_ser:
-                        spec['opts']['serializable'] = False
+                if spec['form'] == 'context' or spec['opts'].get('ddl'):
+                    spec['opts']['retry'] = 0           # TypeError otherwise (R8 / 'ddl' and 'retry' together)
                 out.append(['nest', spec, norm_block(step[2], depth + 1, state), list(step[3])])
         return out
 
@@ -344,6 +348,10 @@ def _classes(case, exp):
         out.append('predicate_error:decisive')
     if case.get('after'):
         out.append('following_session_writes')
+    if exp.get('refused'):
+        out.append('nested_session_refused')
+    if exp.get('refused_caught'):
+        out.append('nested_refusal_caught_by_body' + (':decisive' if exp['decisive'] else ''))
     return out
 
 
